@@ -73,6 +73,10 @@ type absEnv struct {
 	nan1 bool
 	vals map[ssa.Value]aVal
 	why  string
+	// optional: stop evaluation at this instruction (reported as "continue")
+	stopInstr func(ssa.Instruction) bool
+	// abstract values stored into struct fields (by field object)
+	fieldStores map[*types.Var]aVal
 }
 
 func (e *absEnv) get(v ssa.Value) aVal {
@@ -184,6 +188,9 @@ func (e *absEnv) evalBinOp(bo *ssa.BinOp) aVal {
 	case (bo.Op == token.EQL || bo.Op == token.NEQ) && (x.k == aNil || x.k == aSentinel || x.k == aOther) && (y.k == aNil || y.k == aSentinel || y.k == aOther):
 		same := x.k == y.k && x.s == y.s
 		return aVal{k: aBool, b: same == (bo.Op == token.EQL)}
+	case (bo.Op == token.EQL || bo.Op == token.NEQ) && x.k != aUnknown && y.k != aUnknown && x.k != aOrd && y.k != aOrd && x.k != y.k:
+		// interface values of different dynamic kinds (a string against the Missing sentinel) are unequal
+		return aVal{k: aBool, b: bo.Op == token.NEQ}
 	}
 	return aVal{}
 }
@@ -199,6 +206,9 @@ func (e *absEnv) run(start, from, stopAt *ssa.BasicBlock, startIdx int) (rets []
 		}
 		for i := idx; i < len(b.Instrs); i++ {
 			in := b.Instrs[i]
+			if e.stopInstr != nil && e.stopInstr(in) {
+				return nil, true, true
+			}
 			switch x := in.(type) {
 			case *ssa.Phi:
 				if prev == nil {
@@ -263,6 +273,9 @@ func (e *absEnv) run(start, from, stopAt *ssa.BasicBlock, startIdx int) (rets []
 			case *ssa.Store:
 				// spilled results: remember the stored abstract value under the address
 				e.vals[x.Addr] = e.get(x.Val)
+				if fa, ok := x.Addr.(*ssa.FieldAddr); ok && e.fieldStores != nil {
+					e.fieldStores[structFieldOf(fa)] = e.get(x.Val)
+				}
 			}
 		}
 		e.why = "fell off a block"
@@ -974,4 +987,298 @@ func ruleSem5(c *Ctx, r *Reporter) {
 		}
 	}
 	r.guard(n, 2, "decimal conversion helpers on the numeric comparison path")
+}
+
+func init() {
+	register(&Rule{ID: "SEM-6", Doc: "change-stream scope and invalidation table: over (stream db set?, stream coll set?, event db/coll equal?, operation type) an event is delivered iff it is in scope (dropDatabase passes a collection scope) and the stream is invalidated iff (coll scope and drop) or (db scope and dropDatabase)", Run: ruleSem6})
+	register(&Rule{ID: "MOD-1", Doc: "modified detection is BSON byte equality: docsEqual marshals both documents and compares the bytes (a value-preserving type change counts as modified)", Run: ruleMod1})
+	register(&Rule{ID: "UPD-1", Doc: "$push applies its modifiers in MongoDB's order: $position, then $sort, then $slice", Run: ruleUpd1})
+}
+
+func ruleSem6(c *Ctx, r *Reporter) {
+	fn := c.lookupSSA(pkgLungo, "Stream.next")
+	handleF := c.field(pkgLungo, "Stream", "handle")
+	eventF := c.field(pkgLungo, "Stream", "event")
+	droppedF := c.field(pkgLungo, "Stream", "dropped")
+	if fn == nil || handleF == nil || eventF == nil || droppedF == nil {
+		r.bad("anchor:Stream.next", "-", "not found")
+		return
+	}
+	// the three Get calls
+	gets := map[string]*ssa.Call{}
+	allInstrs(fn, func(in ssa.Instruction) {
+		if call, ok := in.(*ssa.Call); ok && calleeFull(&call.Call) == pkgBsonkit+".Get" {
+			if s, ok := constString(call.Call.Args[1]); ok {
+				gets[s] = call
+			}
+		}
+	})
+	opGet, dbGet, collGet := gets["operationType"], gets["ns.db"], gets["ns.coll"]
+	if opGet == nil || dbGet == nil || collGet == nil {
+		r.bad("Stream.next:event fields", c.pos(fn.Pos()), "next() does not read ns.db, ns.coll and operationType of the event")
+		return
+	}
+	// start after the last of the three reads
+	start := opGet
+	for _, g := range []*ssa.Call{dbGet, collGet} {
+		if g.Block() == start.Block() && instrIndex(g) > instrIndex(start) {
+			start = g
+		}
+	}
+	isHandleLoad := func(v ssa.Value) (int64, bool) {
+		u, ok := v.(*ssa.UnOp)
+		if !ok {
+			return 0, false
+		}
+		ia, ok := u.X.(*ssa.IndexAddr)
+		if !ok {
+			return 0, false
+		}
+		fa, ok := ia.X.(*ssa.FieldAddr)
+		if !ok || structFieldOf(fa) != handleF {
+			return 0, false
+		}
+		k, ok := constInt(ia.Index)
+		return k, ok
+	}
+	n := 0
+	for _, h0 := range []string{"", "db"} {
+		for _, h1 := range []string{"", "coll"} {
+			for _, evDB := range []string{"db", "other"} {
+				for _, evColl := range []string{"coll", "other"} {
+					for _, op := range []string{"insert", "drop", "dropDatabase"} {
+						if h0 == "" && h1 != "" {
+							continue // a collection scope without database does not exist
+						}
+						env := &absEnv{vals: map[ssa.Value]aVal{}, fieldStores: map[*types.Var]aVal{}}
+						env.seed = func(v ssa.Value) (aVal, bool) {
+							if k, ok := isHandleLoad(v); ok {
+								if k == 0 {
+									return aVal{k: aStr, s: h0}, true
+								}
+								return aVal{k: aStr, s: h1}, true
+							}
+							switch v {
+							case ssa.Value(opGet):
+								return aVal{k: aStr, s: op}, true
+							case ssa.Value(dbGet):
+								return aVal{k: aStr, s: evDB}, true
+							case ssa.Value(collGet):
+								if op == "dropDatabase" {
+									return aVal{k: aSentinel, s: "Missing"}, true
+								}
+								return aVal{k: aStr, s: evColl}, true
+							}
+							return aVal{}, false
+						}
+						env.stopInstr = func(in ssa.Instruction) bool {
+							call, ok := in.(*ssa.Call)
+							return ok && calleeFull(&call.Call) == "sync.Mutex.Unlock"
+						}
+						_, _, ok := env.run(start.Block(), nil, nil, instrIndex(start)+1)
+						n++
+						key := fmt.Sprintf("Stream.next[scope=%q.%q event=%s.%s op=%s]", h0, h1, evDB, evColl, op)
+						if !ok {
+							r.unk(key, c.pos(start.Pos()), "cannot evaluate: "+env.why)
+							continue
+						}
+						_, delivered := env.fieldStores[eventF]
+						dv, hasDropped := env.fieldStores[droppedF]
+						dropped := hasDropped && dv.k == aBool && dv.b
+						inScope := (h0 == "" || h0 == evDB) && (h1 == "" || h1 == evColl || op == "dropDatabase")
+						wantDropped := inScope && ((h0 != "" && h1 != "" && op == "drop") || (h0 != "" && op == "dropDatabase"))
+						good := delivered == inScope && dropped == wantDropped
+						r.check(good, key, c.pos(start.Pos()), fmt.Sprintf("delivered=%v invalidated=%v", delivered, dropped), fmt.Sprintf("delivered=%v invalidated=%v, expected delivered=%v invalidated=%v", delivered, dropped, inScope, wantDropped))
+					}
+				}
+			}
+		}
+	}
+	r.guard(n, 30, "scope/operation combinations")
+}
+
+func ruleMod1(c *Ctx, r *Reporter) {
+	fn := c.lookupSSA(pkgMongokit, "docsEqual")
+	if fn == nil {
+		r.bad("anchor:docsEqual", "-", "not found")
+		return
+	}
+	var marshals []*ssa.Call
+	var eq *ssa.Call
+	allInstrs(fn, func(in ssa.Instruction) {
+		if call, ok := in.(*ssa.Call); ok {
+			switch calleeFull(&call.Call) {
+			case "go.mongodb.org/mongo-driver/bson.Marshal":
+				marshals = append(marshals, call)
+			case "bytes.Equal":
+				eq = call
+			}
+		}
+	})
+	good := len(marshals) == 2 && eq != nil
+	if good {
+		a, b := tupleResult(marshals[0], 0), tupleResult(marshals[1], 0)
+		good = (eq.Call.Args[0] == a && eq.Call.Args[1] == b) || (eq.Call.Args[0] == b && eq.Call.Args[1] == a)
+		// each parameter is marshalled
+		p0, p1 := false, false
+		for _, m := range marshals {
+			if stripValue(m.Call.Args[0]) == ssa.Value(fn.Params[0]) {
+				p0 = true
+			}
+			if stripValue(m.Call.Args[0]) == ssa.Value(fn.Params[1]) {
+				p1 = true
+			}
+		}
+		good = good && p0 && p1
+		ret := false
+		for _, rt := range returnsOf(fn) {
+			if retVal(rt, 0) == ssa.Value(eq) {
+				ret = true
+			}
+		}
+		good = good && ret
+	}
+	r.check(good, "docsEqual:byte equality", c.pos(fn.Pos()), "bytes.Equal(bson.Marshal(a), bson.Marshal(b))", "docsEqual is not a comparison of the serialized bytes: an update that only changes a value's type (5 -> 5.0) would be reported as unmodified and silently dropped")
+	// used by Replace and Update to filter Modified
+	n := 0
+	for _, m := range []string{"Collection.Replace", "Collection.Update"} {
+		if f := c.lookupSSA(pkgMongokit, m); f != nil {
+			allInstrs(f, func(in ssa.Instruction) {
+				if call, ok := in.(*ssa.Call); ok && staticFn(&call.Call) == fn {
+					n++
+				}
+			})
+		}
+	}
+	r.guard(n, 2, "docsEqual uses in Replace/Update")
+}
+
+func ruleUpd1(c *Ctx, r *Reporter) {
+	fn := c.lookupSSA(pkgMongokit, "applyPush")
+	if fn == nil {
+		r.bad("anchor:applyPush", "-", "not found")
+		return
+	}
+	var sortCall *ssa.Call
+	mods := map[string]*ssa.Call{}
+	allInstrs(fn, func(in ssa.Instruction) {
+		call, ok := in.(*ssa.Call)
+		if !ok {
+			return
+		}
+		switch calleeFull(&call.Call) {
+		case pkgMongokit + ".pushSort":
+			sortCall = call
+		case pkgMongokit + ".pushIntModifier":
+			if s, ok := constString(call.Call.Args[1]); ok {
+				mods[s] = call
+			}
+		}
+	})
+	pos, slice := mods["$position"], mods["$slice"]
+	if sortCall == nil || pos == nil || slice == nil {
+		r.bad("applyPush:modifiers", c.pos(fn.Pos()), "applyPush does not evaluate $position, $sort and $slice")
+		return
+	}
+	r.check(instrReaches(pos, sortCall) && !instrReaches(sortCall, pos), "applyPush:$position before $sort", c.pos(sortCall.Pos()), "elements are inserted at $position before the array is sorted", "$sort runs before $position is applied")
+	r.check(instrReaches(sortCall, slice) && !instrReaches(slice, sortCall), "applyPush:$sort before $slice", c.pos(slice.Pos()), "the array is sorted before it is sliced", "$slice runs before $sort: the wrong elements are kept")
+}
+
+func init() {
+	register(&Rule{ID: "SEM-7", Doc: "container comparison reports equality only after both operands are exhausted together: every `return 0` of compareArrays/compareDocuments is dominated by a length test of the left and of the right operand", Run: ruleSem7})
+	register(&Rule{ID: "PROJ-1", Doc: "$elemMatch projection marks its path as included and as skipped in the same step (for every shape of the field), so the original value is never copied next to / instead of the matched element", Run: ruleProj1})
+}
+
+func ruleSem7(c *Ctx, r *Reporter) {
+	for _, name := range []string{"compareArrays", "compareDocuments"} {
+		fn := c.lookupSSA(pkgBsonkit, name)
+		if fn == nil {
+			r.bad("anchor:"+name, "-", "not found")
+			continue
+		}
+		// operands: the values asserted out of the two parameters
+		side := map[ssa.Value]int{}
+		allInstrs(fn, func(in ssa.Instruction) {
+			if ta, ok := in.(*ssa.TypeAssert); ok {
+				for i, p := range fn.Params {
+					if ta.X == ssa.Value(p) {
+						side[ta] = i
+					}
+				}
+			}
+		})
+		lenSide := func(v ssa.Value) (int, bool) {
+			call, ok := v.(*ssa.Call)
+			if !ok {
+				return 0, false
+			}
+			if b, ok := call.Call.Value.(*ssa.Builtin); !ok || b.Name() != "len" {
+				return 0, false
+			}
+			sd, ok := side[call.Call.Args[0]]
+			return sd, ok
+		}
+		n := 0
+		for _, ret := range returnsOf(fn) {
+			k, ok := constInt(retVal(ret, 0))
+			if !ok || k != 0 {
+				continue
+			}
+			n++
+			have := map[int]bool{}
+			allInstrs(fn, func(in ssa.Instruction) {
+				iff, ok := in.(*ssa.If)
+				if !ok {
+					return
+				}
+				bo, ok := iff.Cond.(*ssa.BinOp)
+				if !ok || bo.Op != token.EQL {
+					return
+				}
+				t := iff.Block().Succs[0]
+				if !(t == ret.Block() || t.Dominates(ret.Block())) {
+					return
+				}
+				if sd, ok := lenSide(bo.X); ok {
+					have[sd] = true
+				}
+				if sd, ok := lenSide(bo.Y); ok {
+					have[sd] = true
+				}
+			})
+			r.check(have[0] && have[1], name+":return 0", c.pos(ret.Pos()), "equality is reported only where the length of both operands has been tested", "equality can be reported without establishing that both operands end at the same position (arrays/documents of different length may compare equal)")
+		}
+		r.guard(n, 2, "`return 0` in "+name)
+	}
+}
+
+func ruleProj1(c *Ctx, r *Reporter) {
+	fn := c.lookupSSA(pkgMongokit, "projectElemMatch")
+	incF := c.field(pkgMongokit, "projectState", "include")
+	skipF := c.field(pkgMongokit, "projectState", "skip")
+	if fn == nil || incF == nil || skipF == nil {
+		r.bad("anchor:projectElemMatch", "-", "not found")
+		return
+	}
+	var incStore *ssa.Store
+	var skipUpd *ssa.MapUpdate
+	allInstrs(fn, func(in ssa.Instruction) {
+		switch x := in.(type) {
+		case *ssa.Store:
+			if fa, ok := x.Addr.(*ssa.FieldAddr); ok && structFieldOf(fa) == incF {
+				incStore = x
+			}
+		case *ssa.MapUpdate:
+			if isLoadOf(x.Map, skipF) {
+				skipUpd = x
+			}
+		}
+	})
+	if incStore == nil || skipUpd == nil {
+		r.bad("projectElemMatch:include/skip", c.pos(fn.Pos()), "$elemMatch does not both include and skip its path")
+		return
+	}
+	r.check(incStore.Block() == skipUpd.Block(), "projectElemMatch:include/skip paired", c.pos(skipUpd.Pos()), "the path is added to include and marked skip in the same block", "the path can be included without being marked skip (or vice versa): for some field shapes the stored value is copied instead of the matched element")
+	b, ok := constBool(skipUpd.Value)
+	r.check(ok && b && skipUpd.Key == ssa.Value(fn.Params[3]), "projectElemMatch:skip own path", c.pos(skipUpd.Pos()), "skip[path] = true for the operator's own path", "the skip mark is not set for the operator's own path")
 }
